@@ -218,6 +218,27 @@ func stuckSummary(dump string) string {
 	return fmt.Sprintf("%d goroutine(s) in ClientConn.Closing, %d blocked in RWMutex.RLock", n, m)
 }
 
+// historyOfTok: the history of the request that carried the token, including what its client received on its stream.
+func historyOfTok(evs []mon.Event, tok string) []string {
+	for _, e := range evs {
+		if e.Src == "client" && e.K == "send" && e.Tok == tok {
+			var out []string
+			for _, l := range historyOf(evs, e.Cl, int16(e.St), tok) {
+				out = append(out, l)
+			}
+			for _, x := range evs {
+				if x.Src == "client" && x.K == "recv" && x.Cl == e.Cl && x.St == e.St && x.L > e.L {
+					ri := DecodeReply("", &rawcql.Frame{IsResponse: true, Version: primitive.ProtocolVersion(x.Ver), Flags: primitive.HeaderFlag(x.Fl), Stream: int16(x.St), OpCode: primitive.OpCode(x.Op), Body: x.Body})
+					out = append(out, fmt.Sprintf("reply: %s %q body=%q", ri.Kind, ri.ErrMsg, clipStr(string(x.Body), 160)))
+					break
+				}
+			}
+			return out
+		}
+	}
+	return historyOf(evs, -1, -1, tok)
+}
+
 func historyOf(evs []mon.Event, cl int, st int16, tok string) []string {
 	var out []string
 	for _, e := range evs {
@@ -1171,7 +1192,7 @@ func proxyClosesConn(c *Ctx, idx int, how string) {
 	scenario := map[string]interface{}{"kind": "proxy-closes-connection", "how": how, "idx": idx}
 	c.Step("proxy-closes-connection how=%s idx=%d", how, idx)
 	hosts := 3 + idx%2
-	bed, err := px.NewBed(px.BedConfig{Hosts: hosts, NumConns: 1 + idx%2, Keyspaces: []string{"ks1"}, HeartBeat: 40 * time.Millisecond, Idle: 250 * time.Millisecond, ConnectTimeout: 400 * time.Millisecond,
+	bed, err := px.NewBed(px.BedConfig{Hosts: hosts, NumConns: 1 + idx%2, Keyspaces: []string{"ks1"}, KeepBodies: true, HeartBeat: 40 * time.Millisecond, Idle: 250 * time.Millisecond, ConnectTimeout: 400 * time.Millisecond,
 		RefreshWindow: 20 * time.Millisecond, ReconnectBase: 2 * time.Millisecond, ReconnectMax: 10 * time.Millisecond})
 	if err != nil {
 		r.Inconc(label + ": cannot start bed: " + err.Error())
@@ -1198,7 +1219,7 @@ func proxyClosesConn(c *Ctx, idx int, how string) {
 			vmu.Unlock()
 			return fakecass.Silence()
 		}
-		return fakecass.Rows()
+		return fakecass.Outcome{} // the default: PREPARED for a PREPARE, the echo row otherwise
 	})
 	var clients []*rawcql.Client
 	for i := 0; i < 2; i++ {
@@ -1283,6 +1304,16 @@ func proxyClosesConn(c *Ctx, idx int, how string) {
 	for tok, as := range Traces(evs) {
 		if len(as) > 0 && as[0].Host == victim && as[0].Outcome == "Silence" || (len(as) > 0 && as[0].Host == victim && as[0].Outcome == "") {
 			inflight++
+		}
+		if !nonIdem[tok] && len(as) >= 1 && as[0].Host == victim && (as[0].Outcome == "Silence" || as[0].Outcome == "") {
+			r.Obs(fmt.Sprintf("idempotent_in_flight_on_proxy_closed_connection:%s:attempts=%d", opName(as[0].Op), len(as)), 1)
+		}
+		// C05: an idempotent request that was in flight there has lost its connection - it moves on to the next host, and the
+		// other hosts answer rows
+		if !nonIdem[tok] && len(as) == 1 && as[0].Host == victim && (as[0].Outcome == "Silence" || as[0].Outcome == "") {
+			r.Violate(mon.Violation{Property: "C05", Signature: fmt.Sprintf("C05/not-failed-over/proxy-closed-connection/%s/%s", how, opName(as[0].Op)),
+				Detail:   fmt.Sprintf("request %s is idempotent; it was in flight on a connection to host %d that the proxy closed itself (%s) and was never sent to another host although %d healthy hosts remain in its plan; history: %v", tok, as[0].Host, how, hosts-1, historyOfTok(evs, tok)),
+				Scenario: scenario, Witness: as})
 		}
 		if nonIdem[tok] && len(as) > 1 {
 			r.Violate(mon.Violation{Property: "C04", Signature: fmt.Sprintf("C04/re-executed-after/proxy-closed-connection/%s/%s", how, opName(as[0].Op)),
